@@ -234,56 +234,83 @@ OUTPUT_CALLEES = ("std::io::stdio::_print", "std::fs::write", "std::fs::File::cr
 
 
 def cli_output(F, rep):
-    main = F.bodies.get("cgt_tool::main")
-    if main is None:
+    """The CLI is analysed function by function (main and the user-written helpers of the cgt_tool crate): a call of a helper
+    that (transitively) writes output counts as an output call in its caller."""
+    from flow import effect_helpers
+    bodies = [b for b in F.bodies.values() if b.crate == "cgt_tool" and P.user_written(F, b) and b.kind in ("fn", "method", "closure")]
+    if not any(b.id == "cgt_tool::main" for b in bodies):
         rep.unresolved("R4", "cli-main", "cgt_tool::main not found")
         return
-    tb = Terms(F, main, inline_depth=0)
-    outs = [(i, t) for i, t in main.calls() if t["callee"] in OUTPUT_CALLEES]
-    rep.count("cli_output_sites", len(outs))
-    if len(outs) < 5:
-        rep.unresolved("R4", "cli-outputs", f"only {len(outs)} output calls found in main")
-    # error exits: blocks that assign the return place from a residual / Err
-    err_blocks = []
-    for i, t in main.calls():
-        if parse_callee(t["callee"])[2] == "from_residual" and t.get("dest") and t["dest"]["l"] == 0:
-            err_blocks.append((i, t))
-    for i, si, s in main.assigns():
-        if s["lhs"]["l"] == 0 and s["rv"]["k"] == "agg" and s["rv"]["variant"] == "Err":
-            err_blocks.append((i, None))
-    rep.count("cli_error_exits", len(err_blocks))
-    for oi, ot in outs:
-        after = main.reach_from(ot["target"]) if ot.get("target") is not None else set()
-        bad = None
-        for ei, et in err_blocks:
-            if ei not in after:
-                continue
-            # the output call's own error is allowed
-            own = False
-            if et is not None:
-                term = tb.operand(et["args"][0])
-                own = any(isinstance(x, tuple) and x and x[0] == "call" and x[1] == ot["callee"] for x in subterms(term))
-            if not own:
-                bad = (ei, et)
-                break
-        name = ot["callee"].split("::")[-1]
-        rep.ob("R4", f"main:{name}@{_arm(main, oi)}", bad is None,
-               "no error exit is reachable after this output call (except its own error)" if bad is None else
-               f"an error exit at {main.loc((bad[1] or {}).get('sp'))} is reachable after output was written at {main.loc(ot['sp'])}: "
-               "a failing run can leave partial output",
-               main.loc(ot["sp"]), key=f"R4:main:fallible-after-{name}")
-    # PDF default-path guard
-    exists = [(i, t) for i, t in main.calls() if t["callee"] == "std::path::Path::exists"]
-    defaults = [i for i, t in main.calls() if t["callee"].endswith("Path::with_extension")]
-    for i, si, s in main.assigns():
-        for k in _consts(s["rv"]):
-            if k.get("str", "").endswith(".pdf"):
+    helpers = effect_helpers(F, lambda cal: cal in OUTPUT_CALLEES, ("cgt_tool",), P.user_written)
+    total = 0
+    nerr = 0
+    for main in bodies:
+        tb = Terms(F, main, inline_depth=0)
+        direct = [(i, t) for i, t in main.calls() if t["callee"] in OUTPUT_CALLEES]
+        outs = direct + [(i, t) for i, t in main.calls() if t["callee"] in helpers and t["callee"] != main.id]
+        total += len(direct)
+        if not outs:
+            continue
+        # error exits: blocks that assign the return place from a residual / Err
+        err_blocks = []
+        for i, t in main.calls():
+            if parse_callee(t["callee"])[2] == "from_residual" and t.get("dest") and t["dest"]["l"] == 0:
+                err_blocks.append((i, t))
+        for i, si, s in main.assigns():
+            if s["lhs"]["l"] == 0 and s["rv"]["k"] == "agg" and s["rv"]["variant"] == "Err":
+                err_blocks.append((i, None))
+        nerr += len(err_blocks)
+        fname = main.short.split("::")[-1]
+        for oi, ot in outs:
+            after = main.reach_from(ot["target"]) if ot.get("target") is not None else set()
+            bad = None
+            for ei, et in err_blocks:
+                if ei not in after:
+                    continue
+                # the output call's own error is allowed
+                own = False
+                if et is not None:
+                    term = tb.operand(et["args"][0])
+                    own = any(isinstance(x, tuple) and x and x[0] == "call" and x[1] == ot["callee"] for x in subterms(term))
+                if not own:
+                    bad = (ei, et)
+                    break
+            name = ot["callee"].split("::")[-1]
+            rep.ob("R4", f"{fname}:{name}@{_arm(main, oi)}", bad is None,
+                   "no error exit is reachable after this output call (except its own error)" if bad is None else
+                   f"an error exit at {main.loc((bad[1] or {}).get('sp'))} is reachable after output was written at {main.loc(ot['sp'])}: "
+                   "a failing run can leave partial output",
+                   main.loc(ot["sp"]), key=f"R4:{fname}:fallible-after-{name}")
+    rep.count("cli_output_sites", total)
+    rep.count("cli_error_exits", nerr)
+    if total < 5:
+        rep.unresolved("R4", "cli-outputs", f"only {total} output calls found in the CLI crate")
+    # ---- PDF default-path guard: the function that builds a default `.pdf` path (itself or through a helper) and writes it
+    def builds_default(b):
+        out = [i for i, t in b.calls() if t["callee"].endswith("Path::with_extension")]
+        for i, si, s in b.assigns():
+            for k in _consts(s["rv"]):
+                if k.get("str", "").endswith(".pdf"):
+                    out.append(i)
+        return out
+    pdf_fn = None
+    for main in bodies:
+        defaults = builds_default(main)
+        for i, t in main.calls():
+            hb = F.bodies.get(t["callee"])
+            if hb is not None and hb.crate == "cgt_tool" and hb.id != main.id and "PathBuf" in hb.ret and builds_default(hb):
                 defaults.append(i)
-    writes = [(i, t) for i, t in outs if t["callee"] == "std::fs::write"]
-    pdf_writes = [(i, t) for i, t in writes if any(main.block_cuts(i, d, i) and i in main.reach_from(d) for d in defaults)]
-    if not defaults or not pdf_writes:
-        rep.unresolved("R4", "pdf-default-path", "default PDF path construction or its write not found in main")
+        writes = [(i, t) for i, t in main.calls() if t["callee"] == "std::fs::write"]
+        pdf_writes = [(i, t) for i, t in writes if any(main.block_cuts(i, d, i) and i in main.reach_from(d) for d in defaults)]
+        if defaults and pdf_writes:
+            pdf_fn = (main, defaults, pdf_writes)
+            break
+    if pdf_fn is None:
+        rep.unresolved("R4", "pdf-default-path", "default PDF path construction or its write not found in the CLI crate")
         return
+    main, defaults, pdf_writes = pdf_fn
+    tb = Terms(F, main, inline_depth=0)
+    exists = [(i, t) for i, t in main.calls() if t["callee"] == "std::path::Path::exists"]
     for wi, wt in pdf_writes:
         ok = False
         why = "no exists() test on the output path dominates the write of a defaulted path"
@@ -300,7 +327,6 @@ def cli_output(F, rep):
                 continue
             true_t = t2["otherwise"]
             cut = wi not in main.reach_from(true_t)
-            covers = all(main.block_cuts(ei, d, wi) or not _is_default_flag_path(main, d, wi, ei) for d in defaults)
             on_default = all(_exists_on_default_edge(main, tb, ei, d, wi) for d in defaults)
             if cut and on_default:
                 ok = True
@@ -310,6 +336,35 @@ def cli_output(F, rep):
             else:
                 why = "a path from the default-path construction reaches the write without passing exists()"
         rep.ob("R4", "main:pdf-overwrite-guard", ok, why, main.loc(wt["sp"]), key="R4:main:pdf-overwrite-guard")
+
+
+def _option_infeasible_edges(main, tb, start):
+    """`start` lies in one arm of a match on an Option value X (edge-dominated by `discr(X) == None/Some`): switches on a
+    bool defined as X.is_none() / X.is_some() have one infeasible edge for paths through `start`"""
+    from roles import guards_of
+    out = set()
+    facts = {}
+    for cnd, val, s in guards_of(main, tb, start):
+        if isinstance(cnd, tuple) and cnd and cnd[0] == "discr":
+            facts[cnd[1]] = "none" if str(val) == "0" else "some"
+    if not facts:
+        return out
+    for s_, t in main.terms_of_kind("switch"):
+        cnd = tb.operand(t["discr"])
+        neg = False
+        if isinstance(cnd, tuple) and cnd and cnd[0] == "un" and cnd[1] == "Not":
+            cnd, neg = cnd[2], True
+        if isinstance(cnd, tuple) and cnd and cnd[0] == "call" and parse_callee(cnd[1])[2] in ("is_none", "is_some") and "option" in cnd[1].lower() \
+                and cnd[2] and cnd[2][0] in facts:
+            truth = (facts[cnd[2][0]] == "none") == (parse_callee(cnd[1])[2] == "is_none")
+            if neg:
+                truth = not truth
+            false_t = [x for v, x in t["targets"] if v == "0"]
+            if truth:
+                out.update((s_, x) for x in false_t)
+            else:
+                out.add((s_, t["otherwise"]))
+    return out
 
 
 def _is_default_flag_path(main, d, wi, ei):
@@ -387,7 +442,7 @@ def _reach_avoiding(main, start, removed_blocks, removed_edges):
 def _exists_on_default_edge(main, tb, ei, d, wi):
     """every feasible path from block d (default path built) to the write passes the exists() call block;
     branches on the constant is-default flag set on that path are resolved"""
-    inf = _flag_infeasible_edges(main, d)
+    inf = _flag_infeasible_edges(main, d) | _option_infeasible_edges(main, tb, d)
     return wi not in _reach_avoiding(main, d, {ei}, inf)
 
 
